@@ -1,5 +1,8 @@
 import Driver.Common
 import LalModel.Model.Group
+import LalModel.Spec.ChunkSpec
+import LalModel.Spec.FlvSpec
+import LalModel.Spec.WsSpec
 /- Driver handler for the group streaming model (C01, C02, C16): grp.run -/
 open Lal Drv
 
@@ -53,12 +56,98 @@ def showRun (s : St) (evs : List Ev) : String :=
   let parts := (subs ++ recs).map fun (k, b) => k ++ "=" ++ Hex.ofBytes b
   if parts.isEmpty then "-" else String.intercalate "|" parts
 
-def handleC01 : Handler := fun comp a _impl =>
+/-- the publisher's non-empty messages as a consumer must see them: (type, timestamp, payload with the
+    @setDataFrame rule applied); computed from the event list alone -/
+def published (evs : List Ev) : List (Nat × Nat × Bytes) :=
+  (evs.foldl (fun (acc : Bool × List (Nat × Nat × Bytes)) e =>
+    match e with
+    | .addPub => (true, acc.2)
+    | .delPub => (false, acc.2)
+    | .msg m => if acc.1 && !m.payload.isEmpty then (acc.1, acc.2 ++ [(m.typ, m.ts, withoutSdf m.typ m.payload)]) else acc
+    | _ => acc) (false, [])).2
+
+def indexOf? (l : List (Nat × Nat × Bytes)) (x : Nat × Nat × Bytes) : Option Nat :=
+  let i := l.findIdx (· == x)
+  if i < l.length then some i else none
+
+def isHeaderMsg (x : Nat × Nat × Bytes) : Bool :=
+  x.1 == 18 || Classify.isVideoKeySeqHeader x.1 x.2.2 || Classify.isAacSeqHeader x.1 x.2.2
+
+def hdrClass (x : Nat × Nat × Bytes) : Nat :=
+  if x.1 == 18 then 0 else if Classify.isVideoKeySeqHeader x.1 x.2.2 then 1 else 2
+
+def consecutive : List Nat → Bool
+  | a :: b :: rest => b == a + 1 && consecutive (b :: rest)
+  | _ => true
+
+def ascending : List Nat → Bool
+  | a :: b :: rest => a < b && ascending (b :: rest)
+  | _ => true
+
+/-- C01/C02 as an executable check on what one consumer decoded: every message is a published one and
+    the sequence is  H ++ G ++ L  with H = cached headers (metadata, video header, audio header, each at
+    most once, in that order), G = replayed GOP frames (ascending), L = one contiguous duplicate-free
+    run; everything in H and G precedes L, and between the first replayed frame and L only header
+    messages and (when a per-GOP cap is configured) non-key frames may be missing. -/
+def contiguousRun (cap : Nat) (pub : List (Nat × Nat × Bytes)) (got : List (Nat × Nat × Bytes)) : String :=
+  match got.mapM (indexOf? pub) with
+  | none => "bad:received-a-message-that-was-never-published"
+  | some idx =>
+    let n := idx.length
+    let msgAt (i : Nat) : Nat × Nat × Bytes := pub.getD i (0, 0, [])
+    let okSplit (h g : Nat) : Bool :=
+      let H := idx.take h
+      let G := (idx.drop h).take g
+      let L := idx.drop (h + g)
+      let hdrOk := H.all (fun i => isHeaderMsg (msgAt i)) && ascending (H.map fun i => hdrClass (msgAt i))
+      let gOk := ascending G && G.all (fun i => !isHeaderMsg (msgAt i))
+      let lOk := consecutive L
+      let before := match L with
+        | [] => true
+        | a :: _ => H.all (· < a) && G.all (· < a)
+      let gapOk := match G, L with
+        | g0 :: _, a :: _ =>
+          (List.range (a - g0)).all fun d =>
+            let i := g0 + d
+            G.contains i || isHeaderMsg (msgAt i) || (cap > 0 && !Classify.isVideoKeyNalu (msgAt i).1 (msgAt i).2.2)
+        | _, _ => true
+      hdrOk && gOk && lOk && before && gapOk
+    if (List.range (min 3 n + 1)).any fun h => (List.range (n - h + 1)).any fun g => okSplit h g
+    then "ok" else "bad:not-headers-then-gop-replay-then-one-contiguous-run"
+
+def decodeRtmp (b : Bytes) : Option (List (Nat × Nat × Bytes)) :=
+  (ChunkSpec.read Gen.localChunkSize b).map fun ms => ms.map fun m => (m.typ, m.ts, m.payload)
+
+def decodeFlv (b : Bytes) : Option (List (Nat × Nat × Bytes)) :=
+  (FlvSpec.readFile b).map fun f => f.tags.map fun t => (t.typ.toNat, t.ts, t.payload)
+
+def decodeWs (b : Bytes) : Option (List (Nat × Nat × Bytes)) :=
+  match WsSpec.readFrames b.length b with
+  | none => none
+  | some fs => if fs.all (fun f => f.fin && f.opcode == 2) then decodeFlv (fs.map (·.payload)).flatten else none
+
+def oracle (cfg : Cfg) (evs : List Ev) (impl : String) : String :=
+  if impl == "-" then "ok" else
+  let pub := published evs
+  let verdicts := (splitOnChar impl '|').map fun part =>
+    match splitOnChar part '=' with
+    | [k, h] =>
+      let b := hex! h
+      if b.isEmpty then "ok" else
+      let dec := if k.startsWith "r" then decodeRtmp b else if k.startsWith "w" then decodeWs b else decodeFlv b
+      match dec with
+      | none => "bad:" ++ k ++ "-stream-not-well-framed"
+      | some got => let v := contiguousRun (if k.startsWith "r" then cfg.rtmpCap else if k.startsWith "R" then 0 else cfg.flvCap) pub got; if v.startsWith "bad" then v ++ ":" ++ k else v
+    | _ => "bad:unparsable"
+  (verdicts.find? (·.startsWith "bad")).getD "ok"
+
+def handleC01 : Handler := fun comp a impl =>
   match comp, a with
   | "grp.run", [cfg, evs] =>
     let es := parseEvs evs
-    let s := run (parseCfg cfg) es
-    some { model := showRun s es }
+    let c := parseCfg cfg
+    let s := run c es
+    some { model := showRun s es, verdict := oracle c es impl }
   | _, _ => none
 
 end Drv.C01
